@@ -9,7 +9,7 @@
    by the parser; evaluated on every parsed program by the executable oracle of the check). *)
 Require Import Grits.Base Grits.Forms Grits.Expand Grits.Tc Grits.TcTop
                Grits.spec.Linear Grits.spec.Sequents Grits.spec.Indep
-               Grits.proofs.IndepTop Grits.proofs.Witnesses.
+               Grits.spec.Oracle Grits.proofs.IndepTop Grits.proofs.OracleProofs Grits.proofs.Witnesses.
 
 Theorem C06_program : forall p p', env_moded_b (p_types p) = true -> typecheck p = Accept p' -> IndepProgram p p'.
 Proof. exact tc_indep_program. Qed.
@@ -19,6 +19,15 @@ Theorem C06_refuted_prc_root :
     parse_string k1_text = POk p /\ typecheck p = Accept p' /\
     In (pd, pd') (combine (p_procs p) (p_procs p')) /\ ~ independent (proc_root p' pd pd').
 Proof. exact k1_refutes. Qed.
+
+(* the executable oracle of the check: per sequent it decides the statement, and the model never
+   accepts a program it flags (the K1 shape apart) *)
+Theorem C06_oracle_sequent_exact : forall D s,
+  (independent_b s = true <-> independent s) /\ (shift_legal_b D s = true <-> shift_legal D s).
+Proof. exact (fun D s => conj (independent_b_iff s) (shift_legal_b_iff D s)). Qed.
+Theorem C06_oracle_agrees : forall p p', env_moded_b (p_types p) = true -> typecheck p = Accept p' ->
+  indep_program_v p = IndepOk \/ exists n, indep_program_v p = IndepK1 n.
+Proof. exact ind_oracle_agrees. Qed.
 
 (* non-vacuity *)
 Example C06_example_accepted : parse_string ex_text = POk ex_p /\ typecheck ex_p = Accept ex_p' /\ env_moded_b (p_types ex_p) = true.
@@ -31,3 +40,5 @@ Proof. exact (tc_indep_program _ _ ex_moded ex_accepted). Qed.
 
 Print Assumptions C06_program.
 Print Assumptions C06_refuted_prc_root.
+Print Assumptions C06_oracle_sequent_exact.
+Print Assumptions C06_oracle_agrees.
